@@ -407,7 +407,7 @@ func c09r4(w *World, rr *RuleRun) {
 // c09r6: shouldReturnNodes / shouldReturnNodes6 true-classes: with a want list, membership of n4 / n6;
 // without one, the requester's own family decided by To4() (so v4-mapped sources count as IPv4).
 func c09r6(w *World, rr *RuleRun) {
-	wc := w.P.Func("wantsContain")
+	wc := w.P.FuncOpt("wantsContain")
 	for _, spec := range []struct {
 		fn     string
 		want   string
@@ -435,7 +435,8 @@ func c09r6(w *World, rr *RuleRun) {
 				continue
 			}
 			ok := alt.Has("b", true, func(x *Term) bool {
-				if !isCall(x, wc) || len(x.Args) != 2 || !termEq(x.Args[0], wants) {
+				isContains := (wc != nil && isCall(x, wc)) || (x.Op == OpCall && strings.HasPrefix(x.Name, "slices.Contains"))
+				if !isContains || len(x.Args) != 2 || !termEq(x.Args[0], wants) {
 					return false
 				}
 				if wantConst == nil {
@@ -447,7 +448,10 @@ func c09r6(w *World, rr *RuleRun) {
 			rr.Oblige(spec.fn, fmt.Sprintf("case %d: with a want list the list is sent only when it names %s", i+1, spec.want), w.P.Pos(f.Pos()), ok, "{"+trunc(strings.Join(alt.Facts(), " ∧ "), 240)+"}")
 		}
 	}
-	// wantsContain is membership
+	// wantsContain is membership (when the helper exists; slices.Contains needs no check)
+	if wc == nil {
+		return
+	}
 	wP := w.ParamTerm(wc, "w")
 	ffW := w.FE.analysisFor(wc)
 	nT := 0
